@@ -111,6 +111,9 @@ pub struct ChainCfg {
     /// call set_position again (with the same initial point) right before this draw call
     #[serde(default)]
     pub reinit_at: Option<u64>,
+    /// run the chain on the delegating SimMath (records momentum draws, ESH updates, normalisations)
+    #[serde(default)]
+    pub observe_math: bool,
 }
 
 #[derive(Clone, Debug)]
@@ -210,6 +213,7 @@ pub struct History {
     pub faults_fired: Vec<(u64, FaultKind)>,
     pub flow_updates: u64,
     pub budget_exhausted: bool,
+    pub math_events: Vec<crate::simmath::MathEvent>,
 }
 
 impl History {
@@ -336,6 +340,18 @@ fn run_with<S: Settings>(settings: S, cfg: &ChainCfg) -> History {
     let log = new_log(cfg.keep_evals);
     let density = SimDensity::new(cfg.target.clone(), cfg.faults.clone(), log.clone());
     let math = CpuMath::new(density);
+    if cfg.observe_math {
+        let events: crate::simmath::MathLog = Default::default();
+        let m = crate::simmath::SimMath::new(math, log.clone(), events.clone());
+        let mut h = run_inner(settings, m, cfg, log);
+        h.math_events = std::mem::take(&mut *events.lock().unwrap());
+        h
+    } else {
+        run_inner(settings, math, cfg, log)
+    }
+}
+
+fn run_inner<S: Settings, M: Math>(settings: S, math: M, cfg: &ChainCfg, log: crate::density::SharedLog) -> History {
     let mut hist = History {
         schema: None,
         new_chain: CallResult::Ok,
@@ -348,6 +364,7 @@ fn run_with<S: Settings>(settings: S, cfg: &ChainCfg) -> History {
         faults_fired: vec![],
         flow_updates: 0,
         budget_exhausted: false,
+        math_events: vec![],
     };
     log.lock().unwrap().max_evals = if cfg.max_evals == 0 { 300_000 } else { cfg.max_evals };
     let schema = catch_unwind(AssertUnwindSafe(|| Schema {
